@@ -225,6 +225,35 @@ def thunks():
     reg("landscaper_fit_transform", landscaper, ["A", "B", "C"], forms=lf)
     reg("landscaper_flatten", lambda P: PersistenceLandscaper(hom_deg=1, num_steps=5, flatten=True).fit_transform([P["A"], P["C"]]), ["A", "C"], forms=lf)
 
+    # ---- the same entry points with OTHER parameters / shapes / argument order: a cache or scratch
+    # buffer keyed on too little (total size, first M seen, ...) shows up as f;g;f giving another f
+    reg("bottleneck_swapped", lambda P: persim.bottleneck(P["B"], P["A"], matching=True), ["A", "B"])
+    reg("bottleneck_other_shape", lambda P: persim.bottleneck(P["C"], P["B"]), ["B", "C"])
+    reg("wasserstein_swapped", lambda P: persim.wasserstein(P["B"], P["A"], matching=True), ["A", "B"])
+    reg("wasserstein_other_shape", lambda P: persim.wasserstein(P["C"], P["B"]), ["B", "C"])
+    reg("heat_swapped", lambda P: persim.heat(P["B"], P["A"]), ["A", "B"])
+    reg("sliced_wasserstein_default_M", lambda P: persim.sliced_wasserstein(P["A"], P["B"]), ["A", "B"], forms=("int", "f64", "f32"))
+    reg("sliced_wasserstein_M3_swapped", lambda P: persim.sliced_wasserstein(P["C"], P["A"], M=3), ["A", "C"], forms=("int", "f64", "f32"))
+    reg("entropy_other", lambda P: persistent_entropy([P["C"]], normalize=True), ["C"], forms=("int", "f64", "f32"))
+    reg("imager_transform_other_grid", lambda P: PersistenceImager(pixel_size=0.25, birth_range=(0.0, 2.0), pers_range=(0.0, 4.0),
+                                                                   kernel_params={"sigma": 0.3}).transform(P["C"]), ["C"], forms=("int", "f64", "f32"))
+    reg("imager_transform_uniform", lambda P: PersistenceImager(pixel_size=0.5, birth_range=(0.0, 3.0), pers_range=(0.0, 3.0), kernel="uniform",
+                                                                kernel_params={"width": 1.0, "height": 0.5}, weight="linear_ramp",
+                                                                weight_params={"low": 0.0, "high": 1.0, "start": 0.0, "end": 3.0}).transform([P["B"], P["A"]]),
+        ["A", "B"], forms=("int", "f64", "f32"))
+    reg("approx_other_steps", lambda P: PersLandscapeApprox(dgms=[P["C"], P["B"]], hom_deg=0, num_steps=5), ["B", "C"], forms=("int", "f64", "f32"))
+    reg("approx_add_mixed_depth", lambda P: (PersLandscapeApprox(dgms=[P["A"]], hom_deg=0, start=0.0, stop=6.0, num_steps=7)
+                                             + PersLandscapeApprox(dgms=[P["B"]], hom_deg=0, start=0.0, stop=6.0, num_steps=7)), ["A", "B"], forms=("int", "f64", "f32"))
+    reg("approx_add_mixed_depth_other", lambda P: (PersLandscapeApprox(dgms=[P["B"]], hom_deg=0, start=0.0, stop=6.0, num_steps=7)
+                                                   - PersLandscapeApprox(dgms=[P["C"]], hom_deg=0, start=0.0, stop=6.0, num_steps=7)), ["B", "C"], forms=("int", "f64", "f32"))
+    reg("exact_other", lambda P: PersLandscapeExact(dgms=[P["C"]], hom_deg=0), ["C"], forms=("int", "f64", "f32"))
+
+    def mgh_swapped(P):
+        np.random.seed(7)
+        return persim.gromov_hausdorff(P["G2"], P["G3"])
+
+    reg("gromov_hausdorff_other_pair", mgh_swapped, ["G2", "G3"], forms=("list", "int"))
+
     # ---- kernels and weights called directly --------------------------------------------------
     from persim import images_kernels as ik, images_weights as iw
 
@@ -233,6 +262,9 @@ def thunks():
     reg("kernel_gaussian_default", lambda P: ik.gaussian(P["X"], P["Y"]), ["X", "Y"], forms=kf)
     reg("kernel_uniform", lambda P: ik.uniform(P["X"], P["Y"], mu=P["mu"], width=2.0, height=1.0), ["X", "Y", "mu"], forms=kf)
     reg("kernel_bvn_high_corr", lambda P: ik.bvn_cdf(P["X"], P["Y"], mu_x=0.5, mu_y=1.0, sigma_xx=1.0, sigma_yy=2.0, sigma_xy=-1.35), ["X", "Y"], forms=kf)
+    reg("kernel_bvn_mid_corr", lambda P: ik.bvn_cdf(P["X"], P["Y"], mu_x=0.5, mu_y=1.0, sigma_xx=1.0, sigma_yy=2.0, sigma_xy=1.15), ["X", "Y"], forms=kf)
+    reg("kernel_bvn_low_corr", lambda P: ik.bvn_cdf(P["Y"], P["X"], sigma_xy=0.2), ["X", "Y"], forms=kf)
+    reg("kernel_bvn_035_corr", lambda P: ik.bvn_cdf(P["Y"], P["X"], sigma_xy=-0.5), ["X", "Y"], forms=kf)
     reg("weight_linear_ramp", lambda P: iw.linear_ramp(P["X"], P["Y"], low=0.0, high=2.0, start=0.5, end=1.5), ["X", "Y"], forms=kf)
     reg("weight_persistence", lambda P: iw.persistence(P["X"], P["Y"], n=2.0), ["X", "Y"], forms=kf)
 
@@ -323,7 +355,8 @@ def defaults_fingerprint():
         for name, obj in sorted(vars(m).items()):
             if name.startswith("__"):
                 continue
-            if isinstance(obj, (np.ndarray, list, dict, set)) and name.isupper():
+            # public module constants only: a private (underscore) cache may legitimately change
+            if isinstance(obj, (np.ndarray, list, dict, set)) and name.isupper() and not name.startswith("_"):
                 out.append((m.__name__, name, snapshot(obj) if not isinstance(obj, set) else repr(sorted(obj))))
             fns = []
             if inspect.isfunction(obj) and getattr(obj, "__module__", "") == m.__name__:
